@@ -49,6 +49,11 @@ NESTED_FIELDS = [("string", "s"), ("varint", "m"), ("record", "sub"), ("record[]
 NAMES = ["sel/main", "sel/small", "sel/other", "sel/nested", "sel/sub", "sel/deep"]
 
 TEXTS = ["", "Hello", "hello", "HELLO", "a b", "x", "b", "inner", "z.txt", "hello world", "Xy"]
+# characters with special case mappings (str.lower / str.upper differ from casefold, change length, or depend on position):
+# sharp s, Greek final sigma, micro sign vs mu, long s, fi ligature, dotted / dotless i, titlecase digraph
+SPECIAL_TEXTS = ["Straße", "STRASSE", "straße", "strasse", "STRAẞE", "ΟΔΟΣ", "οδος", "οδοσ", "ς", "σ", "µm", "μm", "ΜM", "ſtop", "stop", "STOP",
+                 "ﬁle", "file", "FILE", "İstanbul", "i̇stanbul", "istanbul", "ı", "I", "ǅ", "ǆ", "Ǆ", "ß", "ss", "SS"]
+SPECIAL_INFO_TEXTS = TEXTS + TEXTS + SPECIAL_TEXTS   # literal pool for gen_expr when the records carry special texts
 INTS = [0, 1, 2, 3, 5, 7, 100]
 BIGINTS = [2**70, -1, -5, 2**31]
 IPS = ["10.0.0.1", "10.1.2.3", "192.168.1.1", "::1", "2001:db8::5"]
@@ -129,11 +134,12 @@ def _deep(rng, D, level=0):
     return D["sel/deep"](ds=rng.choice(TEXTS), dn=rng.choice(INTS), deeper=deeper)
 
 
-def _main(rng, D, flavour):
+def _main(rng, D, flavour, texts=None):
     """flavour: 'full' (every field set), 'none' (most fields None / lists empty), 'mixed'."""
     from flow.record.fieldtypes import command, path
 
     p_none = {"full": 0.0, "none": 0.8, "mixed": 0.15}[flavour]
+    texts = texts or TEXTS
 
     def opt(v):
         return None if rng.random() < p_none else v
@@ -150,8 +156,8 @@ def _main(rng, D, flavour):
         n=opt(rng.choice(INTS + BIGINTS)), m=opt(rng.choice(INTS)), u16=opt(rng.choice([0, 1, 80, 443, 65535])),
         u32=opt(rng.choice([0, 7, 2**32 - 1])), fs=opt(rng.choice([0, 100, 4096, 2**40])), mode=opt(rng.choice([0o644, 0o755, 0])),
         port=opt(rng.choice([22, 80, 443])), uport=opt(rng.choice([53, 123])), f=opt(rng.choice([0.0, 1.5, -2.5, 100.0, float("inf")])),
-        b=opt(rng.choice([True, False])), s=opt(rng.choice(TEXTS)), t=opt(rng.choice(TEXTS)), w=opt(rng.choice(TEXTS)),
-        by=opt(rng.choice([b"", b"ab", b"Hello", b"\x00\xff"])), l=lst(TEXTS, 1, 4), sl=lst(TEXTS), nl=lst(INTS, 1, 4), ips=lst(IPS),
+        b=opt(rng.choice([True, False])), s=opt(rng.choice(texts)), t=opt(rng.choice(texts)), w=opt(rng.choice(texts)),
+        by=opt(rng.choice([b"", b"ab", b"Hello", b"\x00\xff"])), l=lst(texts, 1, 4), sl=lst(texts), nl=lst(INTS, 1, 4), ips=lst(IPS),
         pl=lst([path.from_posix("/a/b"), path.from_windows("c:\\x")]), d=opt(_dt_value(rng)), ip=opt(rng.choice(IPS)), ip2=opt(rng.choice(IPS)),
         nw=opt(rng.choice(NETS)), nw2=opt(rng.choice(NETS)), ip4=opt(rng.choice(["10.0.0.1", "1.2.3.4"])), u=opt(rng.choice(URIS)),
         p=opt(path.from_posix(pth) if rng.random() < 0.7 else path.from_windows("c:\\tmp\\Hello")),
@@ -179,13 +185,15 @@ def _other(rng, D):
                           f=rng.choice([0.0, 1.5, 100.0]), u=rng.choice(URIS), b=rng.choice([True, False, None]))
 
 
-def record_pool(rng, grouped=False, n_main=6):
+def record_pool(rng, grouped=False, n_main=6, special=False):
     """-> list of records.  Index layout (stable): n_main 'full' mains, 2 'mixed' mains, 2 'none' mains, 3 nested,
-    2 small, 2 other [, 1 grouped(small, other)]."""
+    2 small, 2 other [, 1 grouped(small, other)].  special=True: the text fields of the main shape also draw from
+    SPECIAL_TEXTS (characters with special case mappings); use shape_info with "texts": SPECIAL_INFO_TEXTS then."""
     D = descriptors()
-    pool = [_main(rng, D, "full") for _ in range(n_main)]
-    pool += [_main(rng, D, "mixed") for _ in range(2)]
-    pool += [_main(rng, D, "none") for _ in range(2)]
+    texts = (TEXTS + SPECIAL_TEXTS) if special else None
+    pool = [_main(rng, D, "full", texts) for _ in range(n_main)]
+    pool += [_main(rng, D, "mixed", texts) for _ in range(2)]
+    pool += [_main(rng, D, "none", texts) for _ in range(2)]
     pool += [_nested(rng, D) for _ in range(3)]
     pool += [_small(rng, D) for _ in range(2)]
     pool += [_other(rng, D) for _ in range(2)]
@@ -238,6 +246,48 @@ def deep_records(rng, n=6):
                 rng.shuffle(sibs)
                 node = mk(D, levels[i], sub=None if rng.random() < 0.5 else mk(LEAF, level_values(-(10 + i), salt)), subs=sibs)
         out.append((node, levels))
+    return out
+
+
+# ---- grouped records of different shapes (all GroupedRecord objects share one class) ----------------------
+GROUP_MEMBERS = {
+    "grp/a": [("string", "a"), ("varint", "n"), ("net.ipaddress", "ip")],
+    "grp/b": [("string", "b"), ("string", "c"), ("varint", "m")],
+    "grp/c": [("varint", "a"), ("uri", "u")],                 # field `a` again, as an integer
+    "grp/d": [("string[]", "l"), ("varint", "k"), ("wstring", "w")],
+    "grp/e": [("string", "n"), ("float", "f")],               # field `n` again, as a text
+    "grp/f": [("wstring", "b"), ("net.ipaddress", "src"), ("varint", "n")],
+}
+GROUP_SHAPES = [("grp/a",), ("grp/b",), ("grp/a", "grp/b"), ("grp/c", "grp/d"), ("grp/e", "grp/b"), ("grp/d", "grp/a"), ("grp/c", "grp/e"),
+                ("grp/b", "grp/c", "grp/d"), ("grp/f", "grp/c"), ("grp/e", "grp/f", "grp/d")]
+
+
+def grouped_pool(rng):
+    """-> one GroupedRecord per GROUP_SHAPES entry; the shapes differ in members, field names and the type a name has."""
+    from flow.record import GroupedRecord, RecordDescriptor
+
+    D = {name: RecordDescriptor(name, fields) for name, fields in GROUP_MEMBERS.items()}
+    texts = [t for t in TEXTS if t] + ["Straße", "οδος", "ﬁle"]
+
+    def value(ftype, salt):
+        if ftype in ("string", "wstring"):
+            return "%s%d" % (rng.choice(texts), salt)
+        if ftype == "varint":
+            return 100 * salt + rng.choice(INTS)
+        if ftype == "net.ipaddress":
+            return "10.%d.0.%d" % (salt, rng.randint(1, 9))
+        if ftype == "uri":
+            return "http://g%d.example/p/doc%d.txt" % (salt, salt)
+        if ftype == "float":
+            return salt + 0.25
+        if ftype == "string[]":
+            return ["%s%d" % (rng.choice(texts), salt) for _ in range(rng.randint(1, 3))]
+        raise ValueError(ftype)
+
+    out = []
+    for gi, shape in enumerate(GROUP_SHAPES):
+        members = [D[name](**{f: value(t, 1 + gi * 3 + mi) for t, f in GROUP_MEMBERS[name]}) for mi, name in enumerate(shape)]
+        out.append(GroupedRecord("grp/group", members))
     return out
 
 
